@@ -19,7 +19,9 @@ func (f *TrimToFilter) Apply(src []byte, _ []byte) []byte {
 	}
 	if f.mode == trimModeAll || f.mode == trimModeRight {
 		if idx := bytes.LastIndex(src, f.cutset); idx != -1 {
-			src = src[:idx+1]
+			// keep the cutset itself, whatever its length (an empty cutset keeps src as it is;
+			// idx+1 sliced past len(src) for it and cut a longer cutset after its first byte)
+			src = src[:idx+len(f.cutset)]
 		}
 	}
 	return src
